@@ -600,9 +600,16 @@ func exec(t *testing.T, x any, s hx.Sched) *hx.Outcome {
 			return o
 		}
 		if solo[i].String() != solo2[i].String() {
-			// generator self-check: the handler is not a pure function of its request
-			o.Discarded = true
-			o.Sample = map[string]any{"discarded": "solo responses differ", "a": solo[i].String(), "b": solo2[i].String(), "script": src}
+			// served one at a time in two different orders on the same VM, the request got two different
+			// responses: the generated handlers are pure functions of their request, so an earlier request
+			// left something behind that a later one read
+			kinds := diffSegments(solo[i].Body+solo[i].xout, solo2[i].Body+solo2[i].xout)
+			if len(kinds) == 0 {
+				kinds = []string{"status-or-header"}
+			}
+			for _, k := range kinds {
+				o.Violate("C11/sequential/order-dependent/"+k, fmt.Sprintf("request %d (%s) served alone answers %s after requests 0..%d and %s after requests %d..%d (same VM, one request at a time); script: %s", i, request(w, i).RequestURI, solo[i], i-1, solo2[i], len(w.Reqs)-1, i+1, src))
+			}
 			return o
 		}
 	}
@@ -784,7 +791,7 @@ var prop = &hx.Prop{
 		"annotation controllers (#[Controller]/#[GetMapping]/#[Middleware] classes in an application directory mounted with $server->boot())": "real: std/net/annotation, mount_routes.go, route_dispatch.go; the application's files are real files in the scratch tree",
 		"TCP listener, http.Server, connections":          "simulated: each client is a task calling ServeMux.ServeHTTP with an in-memory request and a SimConn",
 		"goroutine scheduling between in-flight requests": "simulated (seeded scheduler, statement-granular preemption, script-level gates)",
-		"oracle": "the same server script on a second fresh VM serving the same requests strictly one at a time (served twice; case discarded if the two differ)",
+		"oracle": "the same server script on a second fresh VM serving the same requests strictly one at a time, twice (forward and reverse order; a difference between the two is reported as sequential order dependence), plus an absolute check that request data read alone carries the request's own id",
 	},
 }
 
